@@ -185,13 +185,21 @@ def _history(w, h, res, inject_at, out):
             waited += 0.05
         w.reply_hooks.remove(hook)
     if w.stalled is not None:
-        res.obs['stalled_in_op(C05 owns)'] += 1
+        res.obs['stalled_in_op'] += 1
+        k._settle()
+        alive = [p.pid for p in k.procs.values() if p.spawn_no and p.state == 'running'
+                 and p.tag in [simhist.tag_of(t) for t in targets]]
+        res.violation('C02/stop-never-completed[loop-blocked]:' + op,
+                      '%s never completed: the event loop dead-locked in %s; workers still alive: %s'
+                      % (op, w.stalled['site'], alive), inject_at=inject_at)
         return
     if 't' not in done:
         if done.get('reply', {}).get('status') == 'error':
             res.obs['op_refused'] += 1
         else:
-            res.obs['op_not_completed(C05 owns)'] += 1
+            res.obs['op_not_completed'] += 1
+            res.violation('C02/stop-never-completed:' + op, '%s sent with waiting was not completed after 300 s of virtual '
+                          'time' % op, inject_at=inject_at)
         return
     out['n'] = done['calls'] - mark
     res.obs['ops_completed:' + op] += 1
